@@ -1,6 +1,6 @@
 (* C13 -- facts about the executable instances (Model/ReprExec.v): the non-vacuity witness of Props/C13.v *)
 From Coq Require Import ZArith Reals List Bool Lra.
-From MV Require Import Lib.Rigid Model.ReprModel Model.ReprExec Proofs.ReprProofs.
+From MV Require Import Lib.Rigid Gen.GenCylMask Model.ReprModel Model.ReprExec Proofs.ReprProofs.
 Import ListNotations.
 Local Open Scope R_scope.
 
@@ -33,9 +33,18 @@ Qed.
    and the inner one "inside", so the ring reports J = 0 - J = -J in its empty bore. *)
 From Coq Require Import Floats.
 Lemma bore_witness_refutes :
+  GenCylMask.cyl_bases_before_scaling = false ->        (* the placement of the test in the code as translated NOW *)
   @mask_segment FNum bore_witness = false /\
   (let '((ox, oy, oz), _, (r1, _, h, _, _)) := bore_witness in
    PrimFloat.ltb (PrimFloat.sqrt (ox * ox + oy * oy)) r1 = true /\          (* inside the bore *)
    PrimFloat.ltb (h / 2) (PrimFloat.abs oz) = true)%float /\                (* and not between the face planes *)
   @full_cylinder_spec FNum (@cyl_JM_row FNum mu0_f) FJ bore_witness = (0, 0, -1)%float.
-Proof. vm_compute. repeat split. Qed.
+Proof. intros H. vm_compute in H. first [discriminate H | (vm_compute; repeat split)]. Qed.
+
+(* with the test before the scaling (the proposed repair) the same row gives J = 0 *)
+Lemma bore_witness_repaired :
+  (let '(o, p, (r1, r2, h, _, _)) := bore_witness in
+   let cylJ := fun d => if @cyl_inside_gen FNum true (PrimFloat.sqrt (fst (fst o) * fst (fst o) + snd (fst o) * snd (fst o))) (snd o) d h
+                        then p else (0, 0, 0) in
+   @vsub3 FNum (cylJ (2 * r2)) (cylJ (2 * r1)) = (0, 0, 0))%float.
+Proof. vm_compute. reflexivity. Qed.
